@@ -338,7 +338,7 @@ theorem reads_pkeys : ReadsKeys (rdNameAt ns.image.toArray ns.plen (78 + (16 + n
   have hk := h.pkey _ (sortP_mem h (List.getElem_mem hi'))
   unfold rdNameAt
   rw [read_pname h i hi']
-  simp only [cstr?_strncpy _ _ hk.2.1 hk.2.2.1]
+  simp only [cstr_strncpy _ _ hk.2.1 hk.2.2.1]
   simp
 
 omit hd in
@@ -350,7 +350,7 @@ theorem reads_skeys : ReadsKeys (rdNameAt ns.image.toArray ns.slen
   have hk := h.skey _ (sortS_mem h (List.getElem_mem hi'))
   unfold rdNameAt
   rw [read_sname h i hi']
-  simp only [cstr?_strncpy _ _ hk.2.1 hk.2.2]
+  simp only [cstr_strncpy _ _ hk.2.1 hk.2.2]
   simp
 
 /-- the primary-key search of `FindName` on the image -/
@@ -458,9 +458,8 @@ theorem findName_alias (a : SKey) (ha : a ∈ ns.skeys)
       have hpk := h.pkey k hk
       have hpl : ns.plen ≠ 0 := by omega
       rw [hb2]
-      simp only [hpl, ↓reduceIte, hrd hpl, hak]
-      simp only [cstr?_strncpy _ _ hpk.2.1 hpk.2.2.1]
-      simp only [hn, hpl, ↓reduceIte] at hrec
+      simp only [hrd hpl, hak, cstr_strncpy _ _ hpk.2.1 hpk.2.2.1]
+      simp only [hn, ↓reduceIte] at hrec
       exact hrec
     · exact absurd rfl (habs a ha)
 
@@ -519,10 +518,11 @@ def subseqSpec (k : PKey) (f : FileRec) (start : Nat) : SubHit :=
     if f.bpl = f.rpl + 1 then { hit := hitOf k, doff := (k.doff + l * f.bpl + (start - 1) % f.rpl) % 2^64, actual := start }
     else { hit := hitOf k, doff := (k.doff + l * f.bpl) % 2^64, actual := (1 + l * f.rpl) % 2^64 }
 
-theorem findSubseq_primary {ns : NewSsi} (h : ns.WF) (hd : ns.Distinct) (k : PKey) (hk : k ∈ ns.pkeys)
+/-- whatever name `FindName` resolves to the record of the stored key `k`: `FindSubseq` computes the documented outcome
+    from `k`'s record and the line geometry of `k`'s file -/
+theorem findSubseq_of_hit {ns : NewSsi} (key : Bytes) (k : PKey) (hfind : ns.opened.findName key = .ok (hitOf k))
     (hfh : k.fnum < ns.files.length) (start : Nat) (h1 : 1 ≤ start) (h2 : start ≤ k.len) (hL : k.len < 2^63) :
-    ns.opened.findSubseq k.key (start : Int) = .ok (subseqSpec k ns.files[k.fnum] start) := by
-  have hfind : ns.opened.findName k.key = .ok (hitOf k) := findName_primary h hd k hk (FUEL - 1)
+    ns.opened.findSubseq key (start : Int) = .ok (subseqSpec k ns.files[k.fnum] start) := by
   have hsg : toSigned k.len = (k.len : Int) := by
     unfold toSigned
     have : ¬ (k.len ≥ 2^63) := by omega
@@ -531,10 +531,12 @@ theorem findSubseq_primary {ns : NewSsi} (h : ns.WF) (hd : ns.Distinct) (k : PKe
     rw [hsg]; omega
   have hfile : ns.opened.files[(hitOf k).fh]? = some (toSsiFile ns.flen ns.files[k.fnum]) := by
     simp [NewSsi.opened, hitOf, hfh]
+  have hnf : ¬ ((hitOf k).fh ≥ ns.opened.nfiles) := by
+    simp only [NewSsi.opened, hitOf]; omega
   unfold Ssi.findSubseq
   rw [hfind]
-  simp only [hitOf] at hrange hfile ⊢
-  simp only [hrange, ↓reduceIte, hfile, toSsiFile, Int.toNat_natCast]
+  simp only [hitOf] at hrange hfile hnf ⊢
+  simp only [hrange, hnf, ↓reduceIte, hfile, toSsiFile, Int.toNat_natCast]
   unfold subseqSpec
   by_cases hfast : ns.files[k.fnum].bpl > 0 ∧ ns.files[k.fnum].rpl > 0
   · have hr : ns.files[k.fnum].rpl ≠ 0 := by omega
@@ -546,14 +548,9 @@ theorem findSubseq_primary {ns : NewSsi} (h : ns.WF) (hd : ns.Distinct) (k : PKe
       · simp [hfast, hdo, hr, hb, hbr, hitOf]
   · simp [hfast, hitOf]
 
-end EaselModel.Ssi
-
-namespace EaselModel.Ssi
-
-theorem findSubseq_range {ns : NewSsi} (h : ns.WF) (hd : ns.Distinct) (k : PKey) (hk : k ∈ ns.pkeys)
+theorem findSubseq_range_of_hit {ns : NewSsi} (key : Bytes) (k : PKey) (hfind : ns.opened.findName key = .ok (hitOf k))
     (start : Int) (hr : start < 1 ∨ start > (k.len : Int)) (hL : k.len < 2^63) :
-    ns.opened.findSubseq k.key start = .error .erange := by
-  have hfind : ns.opened.findName k.key = .ok (hitOf k) := findName_primary h hd k hk (FUEL - 1)
+    ns.opened.findSubseq key start = .error .erange := by
   have hsg : toSigned k.len = (k.len : Int) := by
     unfold toSigned
     have : ¬ (k.len ≥ 2^63) := by omega
@@ -561,5 +558,25 @@ theorem findSubseq_range {ns : NewSsi} (h : ns.WF) (hd : ns.Distinct) (k : PKey)
   unfold Ssi.findSubseq
   rw [hfind]
   simp only [hitOf, hsg, hr, ↓reduceIte]
+
+/-- a name that `FindName` does not resolve is not resolved by `FindSubseq` either (same status) -/
+theorem findSubseq_of_error (s : Ssi) (key : Bytes) (start : Int) (e : St) (hfind : s.findName key = .error e) :
+    s.findSubseq key start = .error e := by
+  unfold Ssi.findSubseq
+  rw [hfind]
+
+theorem findSubseq_primary {ns : NewSsi} (h : ns.WF) (hd : ns.Distinct) (k : PKey) (hk : k ∈ ns.pkeys)
+    (hfh : k.fnum < ns.files.length) (start : Nat) (h1 : 1 ≤ start) (h2 : start ≤ k.len) (hL : k.len < 2^63) :
+    ns.opened.findSubseq k.key (start : Int) = .ok (subseqSpec k ns.files[k.fnum] start) :=
+  findSubseq_of_hit k.key k (findName_primary h hd k hk (FUEL - 1)) hfh start h1 h2 hL
+
+end EaselModel.Ssi
+
+namespace EaselModel.Ssi
+
+theorem findSubseq_range {ns : NewSsi} (h : ns.WF) (hd : ns.Distinct) (k : PKey) (hk : k ∈ ns.pkeys)
+    (start : Int) (hr : start < 1 ∨ start > (k.len : Int)) (hL : k.len < 2^63) :
+    ns.opened.findSubseq k.key start = .error .erange :=
+  findSubseq_range_of_hit k.key k (findName_primary h hd k hk (FUEL - 1)) start hr hL
 
 end EaselModel.Ssi
